@@ -469,3 +469,6 @@ Proof.
   - apply resep_text_facts; assumption.
   - exact Hov.
 Qed.
+
+Lemma ws_only_repeat : forall n, ws_only (repeat 32 n).
+Proof. induction n; constructor; [reflexivity|assumption]. Qed.
